@@ -1,6 +1,61 @@
 package main
 
-// tryReplay attempts to confirm a failed obligation against the real code.
+import (
+	"bytes"
+	"context"
+	"encoding/json"
+	"fmt"
+	"os"
+	"os/exec"
+	"path/filepath"
+	"strings"
+	"time"
+)
+
+type replayEntry struct {
+	Pkg  string `json:"pkg"`
+	File string `json:"file"`
+	Run  string `json:"run"`
+}
+
+// tryReplay runs the replay adapter registered for a failed obligation against the real code:
+// an in-package Go test injected with `go test -overlay` (the repository is never written).
+// The adapter derives its input from the obligation (and, where one exists, from the model).
+// It confirms the violation iff the test FAILS on the tree under check.
 func tryReplay(eng *Engine, outDir, prop string, o *Obligation) (bool, string) {
-	return false, "no replay adapter for this obligation"
+	vd := verifDir()
+	b, err := os.ReadFile(filepath.Join(vd, "replay", "index.json"))
+	if err != nil {
+		return false, "no replay index"
+	}
+	var idx map[string]replayEntry
+	if json.Unmarshal(b, &idx) != nil {
+		return false, "bad replay index"
+	}
+	ent, ok := idx[o.Name]
+	if !ok {
+		return false, "no replay adapter for this obligation"
+	}
+	src := filepath.Join(vd, "replay", ent.File)
+	repo := repoDir()
+	dst := filepath.Join(repo, strings.TrimPrefix(ent.Pkg, "./"), "zz_verif_replay_"+filepath.Base(ent.File))
+	ov := map[string]map[string]string{"Replace": {dst: src}}
+	ob, _ := json.Marshal(ov)
+	os.MkdirAll(filepath.Join(outDir, "replay"), 0o755)
+	ovFile := filepath.Join(outDir, "replay", "overlay_"+mangle(o.Name)+".json")
+	os.WriteFile(ovFile, ob, 0o644)
+	ctx, cancel := context.WithTimeout(context.Background(), 180*time.Second)
+	defer cancel()
+	cmd := exec.CommandContext(ctx, "go", "test", "-overlay", ovFile, "-vet=off", "-count=1", "-timeout", "60s", "-run", "^"+ent.Run+"$", "-v", ent.Pkg)
+	cmd.Dir = repo
+	cmd.Env = append(os.Environ(), "GOFLAGS=-mod=mod", "GOPROXY=off", "GOSUMDB=off", "GOTOOLCHAIN=local")
+	var buf bytes.Buffer
+	cmd.Stdout, cmd.Stderr = &buf, &buf
+	err = cmd.Run()
+	out := buf.String()
+	detail := fmt.Sprintf("go test -overlay (adapter %s, %s):\n%s", ent.File, ent.Run, firstLines(out, 60))
+	if err != nil && strings.Contains(out, "--- FAIL: "+ent.Run) {
+		return true, detail
+	}
+	return false, detail
 }
